@@ -29,6 +29,10 @@ def jobs(tier, seed):
                   P=dict(P, p_fail_cmd=0.03), scheds=2, p_fail=0.3, exotic=0.5, ctl=dict(rerun=1.0), name="default-rerun")
     js += batches("ctl_sweep", scale(tier, 20, 600), scale(tier, 2, 20), gen="mix", p_loop=0.3, gseed=seed + 7,
                   P=dict(P, nmax=6), modes=["pause"], name="pause-sweep")
+    # actions canceled on the provider side (no workflow request): the workflow goes canceling through the task event
+    js += batches("conduct", scale(tier, 160, 3000), scale(tier, 10, 100), gen="dag", gseed=seed + 9,
+                  P=dict(P, p_items=0.6, p_retry=0.1, p_expr_conc=0.2, xs_max=4, nmax=5), scheds=2, p_fail=0.35, exotic=0.7,
+                  exotic_kinds=["canceled"], name="provider-side-cancel")
     # pause, then cancel while a with-items task rests between items and other actions still run
     js += batches("ctl_sweep", scale(tier, 40, 1000), scale(tier, 4, 25), gen="dag", gseed=seed + 8, p_fail=0.1,
                   P=dict(p_items=0.55, nmax=4, p_join=0.3, p_retry=0.1, p_expr_conc=0.3, xs_max=3), modes=["pause_then_cancel"],
